@@ -3,6 +3,7 @@ package e1front
 import (
 	"bytes"
 	"context"
+	"errors"
 	"fmt"
 	"io"
 	"slices"
@@ -95,6 +96,13 @@ func (hc *histClient) hello2(kind string, a int, useReal bool) (rec []byte, real
 		i := inner.Find(echbox.ExtSNI)
 		if i >= 0 {
 			inner.Exts[i] = echbox.SNIExt("other." + p.InnerSNI[:min(len(p.InnerSNI), 200)])
+		} else {
+			inner.Exts = append(inner.Exts, echbox.SNIExt("added.example"))
+		}
+	case "hello2-sni-case":
+		// the same name in another spelling: other octets in the retried hello
+		if i := inner.Find(echbox.ExtSNI); i >= 0 {
+			inner.Exts[i] = echbox.SNIExt(strings.ToUpper(p.InnerSNI))
 		} else {
 			inner.Exts = append(inner.Exts, echbox.SNIExt("added.example"))
 		}
@@ -204,7 +212,8 @@ func plainRecord(rng uint64, kind string, n int) []byte {
 	case "ccs":
 		return echbox.Record(20, 0x0303, []byte{1})
 	case "alert":
-		return echbox.Record(21, 0x0303, []byte{1, 0})
+		// warning or fatal, every description a TLS stack sends before the keys change
+		return echbox.Record(21, 0x0303, []byte{byte(1 + r.IntN(2)), []byte{0, 10, 40, 47, 50, 70, 80, 109, 112, 120}[r.IntN(10)]})
 	case "hs-other":
 		body := core.Bytes(r, 1+r.IntN(60))
 		return echbox.Record(22, 0x0303, echbox.Handshake([]byte{4, 8, 11, 13, 15, 20, 24}[r.IntN(7)], body))
@@ -222,6 +231,7 @@ var hello2Alerts = map[string][]int{
 	"hello2-fresh":     {alDecryptError},
 	"hello2-seq":       {alDecryptError},
 	"hello2-sni":       {alIllegalParameter},
+	"hello2-sni-case":  {alIllegalParameter},
 	"hello2-alpn":      {alIllegalParameter},
 	"hello2-innertype": {alIllegalParameter, alMissingExtension},
 	"hello2-nover":     {alIllegalParameter, alDecryptError, alMissingExtension},
@@ -322,6 +332,8 @@ func seqIO(b *built) *histIO {
 	}
 }
 
+var errReadStuck = errors.New("Conn.Read has not returned ten virtual minutes after the record arrived")
+
 type readResult struct {
 	b   []byte
 	err error
@@ -401,7 +413,14 @@ func concIO(w *simnet.World, b *built) *histIO {
 		},
 		feed: func(rec []byte) ([]byte, error) {
 			cc.Write(rec)
-			r := <-reads
+			var r readResult
+			select {
+			case r = <-reads:
+			case <-time.After(10 * time.Minute):
+				// the client is still connected and silent: the record has long
+				// arrived, and Read has neither data nor an error to show for it
+				return nil, errReadStuck
+			}
 			if r.pk != "" {
 				*pk = r.pk
 			}
@@ -586,6 +605,16 @@ func runHistory(prop string, seed uint64, p *HistoryPlan, b *built, io_ *histIO,
 				if st.WSplit > 0 && !p.Concurrent && len(pendingW) > 1 && !slowFirst {
 					// the forwarder's buffer is reused between the two calls
 					k := 1 + st.WSplit%(len(pendingW)-1)
+					if st.WSplit%3 == 0 {
+						// ... preferably so that the second call starts with an octet
+						// that looks like a record type
+						for j := 1; j < len(pendingW); j++ {
+							if x := (k + j) % len(pendingW); x > 0 && pendingW[x] >= 20 && pendingW[x] <= 23 {
+								k = x
+								break
+							}
+						}
+					}
 					scratch := make([]byte, len(pendingW))
 					copy(scratch, pendingW[:k])
 					n1, e1 := io_.write(scratch[:k])
@@ -667,7 +696,7 @@ func runHistory(prop string, seed uint64, p *HistoryPlan, b *built, io_ *histIO,
 			if processed {
 				retried, rInspect = true, false
 				res.Probe("retry_processed")
-				if al, bad := hello2Alerts[st.Kind]; bad && !((st.Kind == "hello2-sni" || st.Kind == "hello2-alpn" || st.Kind == "hello2-outersni") && (!real || seq != recvSeq)) {
+				if al, bad := hello2Alerts[st.Kind]; bad && !((st.Kind == "hello2-sni" || st.Kind == "hello2-sni-case" || st.Kind == "hello2-alpn" || st.Kind == "hello2-outersni") && (!real || seq != recvSeq)) {
 					// (a changed inner name / ALPN can only be noticed once the payload opened)
 					expectAbort = al
 				} else if !real || seq != recvSeq {
@@ -768,8 +797,8 @@ func runHistory(prop string, seed uint64, p *HistoryPlan, b *built, io_ *histIO,
 	res.Sample = map[string]any{"kind": "history", "concurrent": p.Concurrent, "steps": p.Steps}
 }
 
-var cKinds = []string{"hello2-ok", "hello2-ok", "hello2-ok", "hello2-noech", "hello2-id", "hello2-suite", "hello2-enc", "hello2-fresh", "hello2-seq", "hello2-sni", "hello2-alpn", "hello2-innertype", "hello2-nover", "hello2-outersni", "hello2-suite-pre", "ccs", "ccs", "hs-other", "alert", "appdata"}
-var bKinds = []string{"hrr", "hrr", "sh", "ccs", "appdata", "hs-other"}
+var cKinds = []string{"hello2-ok", "hello2-ok", "hello2-ok", "hello2-noech", "hello2-id", "hello2-suite", "hello2-enc", "hello2-fresh", "hello2-seq", "hello2-sni", "hello2-sni-case", "hello2-alpn", "hello2-innertype", "hello2-nover", "hello2-outersni", "hello2-suite-pre", "ccs", "ccs", "hs-other", "alert", "appdata"}
+var bKinds = []string{"hrr", "hrr", "sh", "ccs", "appdata", "hs-other", "alert"}
 
 func genC06(seed uint64, idx int) *Plan {
 	r := core.NewRand(seed, "plan")
